@@ -53,6 +53,22 @@ var c11Conn = []hv{
 	{"empty", []string{""}, 0},
 }
 
+// further Connection / Upgrade values for the server side only (C13 uses the lists above for responses): several
+// header lines whose FIRST line is something else of exactly the token's length
+var c11ConnServer = append(append([]hv(nil), c11Conn...),
+	hv{"first-line-7-bytes", []string{"x-trace", "Upgrade"}, 1},
+	hv{"first-line-list-of-7-bytes", []string{"TE, foo", "keep-alive, upgrade"}, 1},
+)
+
+var c11UpgServer []hv
+
+func init() {
+	c11UpgServer = append(append([]hv(nil), c11Upg...),
+		hv{"first-line-9-bytes", []string{"h2c, quic", "websocket"}, 1},
+		hv{"first-line-9-bytes-near-miss", []string{"websocke7", "WebSocket"}, 1},
+	)
+}
+
 var c11Upg = []hv{
 	{"websocket", []string{"websocket"}, 1},
 	{"WebSocket", []string{"WebSocket"}, 1},
@@ -132,6 +148,10 @@ var c11Sub = []spCase{
 	{"case-differs", []string{"Chat"}, []string{"chat"}},
 	{"prefix-names", []string{"chat2"}, []string{"chat, chat22"}},
 	{"empty-elements", []string{"x"}, []string{" , x,, "}},
+	// a server list may name a protocol twice (the preferred one put in front of a complete list): its rank is
+	// that of its first occurrence
+	{"server-list-repeats-a-name", []string{"v1", "v2", "v1"}, []string{"v2, v1"}},
+	{"server-list-repeats-in-other-case", []string{"Chat", "b", "chat"}, []string{"b, chat"}},
 }
 
 func tokens(lines []string) []string {
@@ -193,7 +213,7 @@ func c11Gen(tier string, seed int64) []fw.Case {
 	var cases []fw.Case
 	for _, m := range c11Methods {
 		for _, p := range c11Protos {
-			for _, cn := range c11Conn {
+			for _, cn := range c11ConnServer {
 				d := c11Desc{Kind: "direct", Method: m.M, Proto: fmt.Sprintf("HTTP/%d.%d", p.Maj, p.Min), Conn: cn}
 				mm, pp := m, p
 				cases = append(cases, fw.Case{Name: fmt.Sprintf("direct/%s/%s/conn=%s", m.M, d.Proto, cn.Name), Desc: d, Run: func(r *fw.R) { c11Direct(r, d, mm.M, mm.OK, pp.Maj, pp.Min, pp.OK) }})
@@ -263,7 +283,7 @@ func setLines(h http.Header, name string, lines []string) {
 func c11Direct(r *fw.R, d c11Desc, method string, mOK bool, maj, min int, pOK bool) {
 	keys := c11Keys()
 	r.SetSample(map[string]any{"method": method, "proto": d.Proto, "Connection": d.Conn.Lines, "Upgrade": c11Upg[2].Lines, "Sec-WebSocket-Version": c11Ver[0].Lines, "Sec-WebSocket-Key": keys[0].Lines, "subprotocols": c11Sub[4]})
-	for _, up := range c11Upg {
+	for _, up := range c11UpgServer {
 		for _, ver := range c11Ver {
 			for _, key := range keys {
 				for _, sp := range c11Sub {
